@@ -106,6 +106,14 @@ class StmtMixin:
             vals = [s.env[nm] for s in sts]
             if all(isinstance(v, V) for v in vals):
                 tys = {v.ty for v in vals}
+                if "none" in tys and len(tys) == 2 and None not in tys:
+                    # None on one branch, X on the other: Optional[X]
+                    other = next(t for t in tys if t != "none")
+                    if base_type(other) in self.reg.classes or base_type(other) in ("list", "dict", "set", "tuple", "str", "int", "Path"):
+                        oty = other if other.startswith("opt:") else "opt:" + other
+                        srcs = [v.src for v in vals]
+                        out.env[nm] = V(ite([v.t for v in vals]), oty, src=srcs[0] if all(x is srcs[0] for x in srcs) else None)
+                        continue
                 if len({base_type(t) for t in tys if t is not None}) > 1:
                     if all(v.t.eq(vals[0].t) for v in vals[1:]):
                         out.env[nm] = V(vals[0].t, None, vals[0].src)     # same value, narrowed differently on the branches
@@ -170,6 +178,9 @@ class StmtMixin:
         if not d:
             return False
         root = d.split(".")[0]
+        if d == "print":
+            self.dropped.add("print")      # console output: arguments are not evaluated
+            return True
         if root in ("logger", "logging", "hash_logger") or d in ("cprint", "print"):
             for a in ast.walk(call):
                 if isinstance(a, ast.Call) and a is not call:
